@@ -134,10 +134,18 @@ class Leaf(Mid):
 
 
 @dataclass(eq=False)
+class Port:
+    """refers back to the shape whose `ports` (declared on the alternatively mapped base) hold it"""
+    uid: int = 0
+    shape: Optional[ShapeBase] = None
+
+
+@dataclass(eq=False)
 class ShapeBase:
-    """alternatively mapped parent of a normally mapped subclass"""
+    """alternatively mapped parent of a normally mapped subclass; declares a relationship of its own"""
     uid: int = 0
     name: str = ""
+    ports: List[Port] = field(default_factory=list)
     meta: Dict[str, int] = field(default_factory=dict)
 
 
@@ -145,13 +153,14 @@ class ShapeBase:
 class ShapeBaseMapping(AlternativeMapping[ShapeBase]):
     uid: int
     name: str
+    ports: List[Port]
 
     @classmethod
     def create_instance(cls, obj: ShapeBase) -> Self:
-        return cls(obj.uid, obj.name)
+        return cls(obj.uid, obj.name, obj.ports)
 
     def create_from_dao(self) -> ShapeBase:
-        return ShapeBase(self.uid, self.name)
+        return ShapeBase(self.uid, self.name, self.ports)
 
 
 @dataclass(eq=False)
@@ -160,5 +169,5 @@ class Circle(ShapeBase):
     center: Optional[Vec] = None
 
 
-VERIF_CLASSES = [Vec, Pin, Item, Holder, Base0, Mid, Leaf, ShapeBase, Circle]
+VERIF_CLASSES = [Vec, Pin, Item, Holder, Base0, Mid, Leaf, Port, ShapeBase, Circle]
 VERIF_ORMATIC = {"alternative_mappings": [VecMapping, PinMapping, ShapeBaseMapping], "type_mappings": {Money: MoneyType}}
